@@ -58,6 +58,11 @@ def liveSet (h : Heap) (roots : List Nat) : List Nat :=
 def liveChildren (h : Heap) (live : List Nat) (t : Nat) : List Nat :=
   (h.t t).vchildren.filter live.contains
 
+/-- `is_view_child(base, tensor)`: `tensor` is reachable from `base` through live recorded view children -/
+def reachesViaViews (h : Heap) (live : List Nat) : Nat → Nat → Nat → Bool
+  | 0, _, _ => false
+  | fuel + 1, b, t => (liveChildren h live b).any fun c => c == t || reachesViaViews h live fuel c t
+
 /-- a node of the duplicating graph -/
 structure Node where
   tensor : Nat
@@ -257,9 +262,9 @@ def inPlaceOp (h : Heap) (roots : List Nat) (self : Nat) (kind : Kind) (inputs :
   let h := h.modT self fun t =>
     { t with grad := none, viewGrad := none,
              base := if t.base.isSome ∧ t.creator.isNone then none else t.base }
-  -- if self._base is not None and not self._base._view_children: self._base = None
+  -- if self._base is not None and not is_view_child(base=self._base, tensor=self): self._base = None
   let h := match (h.t self).base with
-    | some b => if (liveChildren h live b).isEmpty then h.modT self ({ · with base := none }) else h
+    | some b => if (reachesViaViews h live h.fuel b self) then h else h.modT self ({ · with base := none })
     | none => h
   let selfIsBase := (h.t self).base.isNone
   let baseId := ((h.t self).base).getD self
